@@ -31,6 +31,7 @@ RULE = ('random programs of 1-6 chained public operations (copy, slice, apply,'
         'is non-trivial when the operation returned a file with >= 1 variable;'
         ' distinct = digest of (operation description, input file digest).')
 RULE += (" After a program on a receiver opened from disk the source is closed: every file obtained from it must still be well-formed. Reader receivers are also opened with the readers' rarely used keywords (bpch timeslice / noscale / nogroup, ARL cache).")
+RULE += (' One plain receiver from disk in three is written with netCDF4 directly, as other tools write archive files (float data variables packed as int16 with scale_factor/add_offset, masks as _FillValue).')
 ASSUMPTIONS = [
     'in-domain = arguments generated from the file at hand: existing '
     'dimensions/variables, in-range indices, conforming operands, numeric '
@@ -130,6 +131,7 @@ def run(spec, res):
 
 def run_in(spec, res, d, h):
     import os
+    from .. import harness
     ops.OPTIONS['zipped'] = True
     ioapi = 'ioapi' in spec['file']
     rdr = spec['file'].get('reader')
@@ -149,7 +151,19 @@ def run_in(spec, res, d, h):
         import PseudoNetCDF as pnc
         try:
             path = os.path.join(d, 'src.nc')
-            h.keep(f.save(path, format='NETCDF4', verbose=0)).close()
+            wrote = False
+            if not ioapi and spec['prog_seed'] % 3 == 0:
+                # written with netCDF4 directly, as other tools write
+                # archive files (packed variables)
+                try:
+                    harness.write_foreign(f, path)
+                    wrote = True
+                    res.facet('source:disk-written-by-netCDF4-packed')
+                except Exception:
+                    if os.path.exists(path):
+                        os.remove(path)
+            if not wrote:
+                h.keep(f.save(path, format='NETCDF4', verbose=0)).close()
             f = h.keep(pnc.pncopen(path, format='ioapi' if ioapi
                                    else 'netcdf'))
             res.facet('source:disk')
